@@ -4,6 +4,7 @@
 package c02
 
 import (
+	"strconv"
 	"encoding/hex"
 	"fmt"
 	"io"
@@ -94,15 +95,26 @@ func ints(s string) []int {
 	return o
 }
 
-// capInts maps values outside the prescribed range (>= 10^9, or negative
-// after overflow) to the oracle's Huge (-2).
-func capInts(p []int) []int {
-	o := make([]int, len(p))
+// digitsOf gives a delivered parameter value as its decimal digits (TLC
+// integers have 32 bits; digit sequences compare exactly whatever the size).
+// A value of 19 digits or more, or negative after overflow, is outside the
+// prescribed range: the oracle's Huge (<<-2>>).
+func digitsOf(v int) []int {
+	if v < 0 || v >= 1000000000000000000 {
+		return []int{-2}
+	}
+	s := strconv.Itoa(v)
+	d := make([]int, len(s))
+	for i := range s {
+		d[i] = int(s[i] - '0')
+	}
+	return d
+}
+
+func capInts(p []int) [][]int {
+	o := make([][]int, len(p))
 	for i, v := range p {
-		if v < 0 || v >= 1000000000 {
-			v = -2
-		}
-		o[i] = v
+		o[i] = digitsOf(v)
 	}
 	return o
 }
@@ -120,7 +132,7 @@ func Item(seq ansi.Sequence) (map[string]any, bool) {
 	case ansi.SS3:
 		return map[string]any{"t": "ss3", "v": int(s)}, true
 	case ansi.CSI:
-		ps := make([][]int, len(s.Parameters))
+		ps := make([][][]int, len(s.Parameters))
 		for i, p := range s.Parameters {
 			ps[i] = capInts(p)
 		}
@@ -274,6 +286,13 @@ func randNum(rng *rand.Rand) string {
 		return fmt.Sprint(rng.Intn(100000))
 	case 4:
 		return "007"
+	case 5:
+		if rng.Intn(3) == 0 {
+			// around the sizes of machine integers, and beyond every one of them
+			return []string{"65535", "65536", "999999999", "1000000000", "2147483647", "2147483648", "4294967295", "4294967296",
+				"00000000004294967297", "123456789012", "999999999999999999", "1000000000000000000", "9223372036854775807",
+				"9223372036854775808", "18446744073709551621", "340282366920938463463374607431768211456"}[rng.Intn(16)]
+		}
 	}
 	return fmt.Sprint(rng.Intn(300))
 }
